@@ -95,3 +95,18 @@ def replay_race(model, obligation):
     bad = (not refused) and not got
     return {'reproduced': bad, 'detail': 'send accepted=%s after the connection was defuncted mid-send; handler invoked %d times; still registered: %s'
             % (not refused, len(got), 5 in c._requests)}
+
+
+def replay_push_race(model, obligation):
+    """defunct() runs inside push() (the write fails): the handler of the request being sent must be swept"""
+    c = _conn()
+    got = []
+    c.push = lambda data: c.defunct(Exception('broken pipe'))
+    try:
+        c.send_msg('m', 5, lambda r: got.append(r), encoder=lambda *a, **k: b'x')
+        refused = False
+    except Exception:
+        refused = True
+    bad = (len(got) != 1 and not (refused and not got and 5 not in c._requests)) or 5 in c._requests
+    return {'reproduced': bad, 'detail': 'the connection failed while the frame was being written: handler invoked %d times, send refused=%s, still registered: %s'
+            % (len(got), refused, 5 in c._requests)}
